@@ -30,7 +30,9 @@ ASSUMPTIONS = [
     "os.stat is the trusted source for size and mtime",
 ]
 
-NAMES = ["a.txt", "B.txt", "b.txt", "Z", "_x", "10", "9", "ä.txt", "Ärger", "file-1", "file 2", ".hidden", "README", "Makefile", "zeta.PY", "App"]
+NAMES = ["a.txt", "B.txt", "b.txt", "Z", "_x", "10", "9", "ä.txt", "Ärger", "file-1", "file 2", ".hidden", "README", "Makefile", "zeta.PY", "App",
+         # names that are prefixes of each other / contain characters that sort around quotes and brackets
+         "lib", "lib64", "v1", "v10", "notes", "notes (copy)", "it's.txt", "src", "src-old", "a]b", "a'b"]
 
 
 def materialise(spec, path):
@@ -112,6 +114,31 @@ def run(case, rec):
         compare(rec, spec, root, list(tree.children), sort, "scan")
         if rec.failed:
             return
+        # ---- multi-step: change files on disk and scan the same path again ------------------
+        if case.get("rescan"):
+            changed = 0
+
+            def touch(sp, path):
+                nonlocal changed
+                for f in sp["files"]:
+                    if (len(f[0]) + f[1]) % 2 == 0:
+                        f[1] = f[1] + 3
+                        f[2] = f[2] + 1000.5
+                        p = os.path.join(path, f[0])
+                        with open(p, "wb") as fh:
+                            fh.write(b"y" * f[1])
+                        os.utime(p, (f[2], f[2]))
+                        changed += 1
+                for d in sp["dirs"]:
+                    touch(d, os.path.join(path, d["name"]))
+
+            touch(spec, root)
+            tree = load_tree_from_fs(root, sort=sort)
+            rec.evals += 1
+            rec.cls("rescan-after-modification")
+            compare(rec, spec, root, list(tree.children), sort, "rescan")
+            if rec.failed:
+                return
         rec.nt(interesting(spec))
         rec.cls("sort" if sort else "unsorted")
         # ---- save / load ------------------------------------------------------------
@@ -152,6 +179,8 @@ def hyp_cases(draw, tier):
         case["sort_kw"] = False
     if draw(st.sampled_from([0, 0, 1])):
         case["compression"] = True
+    if draw(st.sampled_from([0, 1])):
+        case["rescan"] = True
     return case
 
 
